@@ -285,6 +285,18 @@ def check(ctx):
         got = truth_cases(g)
         want1 = {lits("self.%s != '%s'" % ('minimum' if const == 'MIN' else 'maximum', const))}
         ok = got is not None and minimal(got) == want1
+        # evaluation first: the predicate on states with and without the bound
+        try:
+            attr_ = 'minimum' if const == 'MIN' else 'maximum'
+            ev_ok = True
+            for lo_ in ('MIN', -5, 0, 3):
+                for hi_ in ('MAX', -5, 0, 10):
+                    r_, _e = _ev.run_function(g, {'self.minimum': lo_, 'self.maximum': hi_})
+                    if bool(r_) != ((lo_ if attr_ == 'minimum' else hi_) != const):
+                        ev_ok = False
+            ok = ev_ok
+        except (_ev.Unsupported, _ev.Raised):
+            pass
         ctx.instance('C11.R1', nm, 'ok' if ok else 'VIOLATION', node=g, file=CC)
         if not ok:
             ctx.violation('C11.R1', CC, g, 'constraints_checker.Type.' + nm, "%s must be `self.%s != '%s'`" % (nm, 'minimum' if const == 'MIN' else 'maximum', const), stmt=nm)
@@ -413,6 +425,21 @@ def check(ctx):
     ext = [p for p in rps if p.has('ARG2', True)]
     ok = bool(ext) and all(not any(ev[0] == 'store' for ev in p.events) for p in ext) and any(any(ev[0] == 'store' for ev in p.events) for p in rps if p.has('ARG2', False))
     # no store to self.minimum/maximum before it
+    # evaluation first: set_range with the extension marker set leaves the range of the object as it was; without it, it does not (on a state it must change)
+    from .. import evalexpr as _ev4
+    try:
+        sp_ = [p_ for p_ in flow.param_names(f) if p_ != 'self']
+        ev_ok = True
+        for lo_, hi_ in (('MIN', 'MAX'), (0, 10), (-5, 'MAX')):
+            _r, env_ = _ev4.run_function(f, {'self.minimum': lo_, 'self.maximum': hi_, sp_[0]: 2, sp_[1]: 3, sp_[2]: True})
+            if (env_.get('self.minimum'), env_.get('self.maximum')) != (lo_, hi_):
+                ev_ok = False
+            _r, env_ = _ev4.run_function(f, {'self.minimum': lo_, 'self.maximum': hi_, sp_[0]: 2, sp_[1]: 3, sp_[2]: False})
+            if (env_.get('self.minimum'), env_.get('self.maximum')) != (2, 3):
+                ev_ok = False
+        ok = ev_ok
+    except (_ev4.Unsupported, _ev4.Raised):
+        pass
     ctx.instance('C11.R4', 'Type.set_range returns first when extensible', 'ok' if ok else 'VIOLATION', node=f, file=CC)
     if not ok:
         ctx.violation('C11.R4', CC, f, 'constraints_checker.Type.set_range', 'an extensible constraint must leave the type unconstrained: `if has_extension_marker: return` must be the first statement', stmt='extensible early return')
